@@ -64,8 +64,19 @@ def check_c06(ctx):
         for bad in sd.OUT_BAD:
             seq = base[:pos] + [bad] + base[pos:]
             scripts.append([{"op": "Accept", "shape": s, "text": rng.choice(sd.OUT_TEXTS), "idle": False} for s in seq] + [{"op": "CloseWrite"}])
+    # a large message in flight while the reader task writes a batch rejection to the same stdin
+    for _ in range(20 if quick else 300):
+        pre = [{"op": "Accept", "shape": rng.choice(["typedReq", "dict", "str"]), "text": rng.choice(sd.OUT_TEXTS), "idle": False} for _ in range(rng.randrange(0, 3))]
+        scripts.append(pre + [{"op": "Accept", "shape": "bigTyped", "text": "plain", "idle": False}, {"op": "ChildBatch"},
+                              {"op": "Accept", "shape": "typedResp", "text": "plain", "idle": True}, {"op": "CloseWrite"}])
     chunks = [(scripts[i:i + 200], ctx.seed + i) for i in range(0, len(scripts), 200)]
     traces = [t for ch in par.pmap(_run, chunks, chunksize=1) for t in ch]
+    # the same scripts with the fallback model back end (typed messages are dumped by it)
+    nfb = len(scripts) // (4 if quick else 1)
+    fchunks = [(scripts[i:i + 200], ctx.seed + i) for i in range(0, nfb, 200)]
+    ftraces = [t for ch in par.pmap(_run, fchunks, chunksize=1, env={"MCP_FORCE_FALLBACK": "1"}) for t in ch]
+    scripts = scripts + scripts[: len(ftraces)]
+    traces = traces + ftraces
     res = validate.validate("StdioOutTrace", traces, CONSTS, work=os.path.join(ctx.work, "val"), chunk=1000)
     ctx.cov["states"] += res["states"]
     ctx.cov["transitions"] += res["transitions"]
